@@ -348,6 +348,17 @@ def check(prop, tier):
                                 **r["sample"]))
     if prop == "C04":
         _check_c04(jobs, results, rep, tot)
+    if prop == "C07":
+        # promises in real-time mode, where ancestors can receive external events (set_event)
+        from . import rt
+        n_rt, err = rt.c07_check(rep, tier)
+        if err:
+            print(f"MACHINERY-ERROR {err}", file=sys.stderr)
+            return 2
+        tot["execs"] += n_rt
+        tot["states"] += n_rt
+        tot["transitions"] += n_rt
+        tot["rt_event_executions"] = n_rt
     rc = rep.finish()
     nontrivial = sum(1 for r in results if r["execs"] > 1)
     cov = dict(
@@ -367,6 +378,7 @@ def check(prop, tier):
         jobs_with_several_views=tot["jobs_with_several_views"],
         jobs_explored_without_merging_after_a_failed_merge_validation=tot["stateless_fallbacks"],
         known_findings_hit={k: v[1] for k, v in rep.known_hits.items()},
+        real_time_executions_with_external_events=tot.get("rt_event_executions", 0),
         family=fam_info,
         explanation="no abstract model: every transition is an execution of the code in the "
                     "tree under test, so every trace is an implementation trace",
